@@ -704,6 +704,8 @@ class ObjEval(BlockEval):
                 if m in base and callable(base[m]):
                     return base[m](*args, **kwargs)
                 raise FevalError(f"method {m}")
+            if isinstance(base, dict) and m in base and callable(base[m]):
+                return base[m](*args, **kwargs)  # a module modelled as a dict of names
             if isinstance(base, (dict, list, set, tuple, frozenset, str)) and m in (
                     "get", "setdefault", "append", "add", "pop", "update", "extend", "items", "keys", "values", "count", "index", "discard", "remove",
                     "insert", "copy", "union", "intersection", "difference", "isdisjoint", "issubset", "issuperset", "most_common", "clear"):
